@@ -19,7 +19,7 @@ from pyvc.values import AbsObj, Arr, Obj, Opaque, PDict, PList, SV, mk, sym, to_
 # native: sequences of public-API operations on a real DrillholeGroup, compared with a model
 # ------------------------------------------------------------------------------------------
 
-OPS = ("add", "update", "remove", "reopen", "add_nan", "add_text", "update_text")
+OPS = ("add", "update", "remove", "reopen", "add_nan", "add_text", "update_text", "remove_hole_ws", "remove_hole_parent", "copy_group", "group_data", "idle_session")
 
 
 def _file_tiling(path):
@@ -102,8 +102,17 @@ def run_history(case):
             Drillhole.create(ws, name=f"H{h}", parent=grp, collar=np.r_[float(h), 0.0, 0.0], surveys=np.c_[np.r_[0.0, 10.0], np.zeros(2), np.ones(2) * -90.0])
             model[f"H{h}"] = {}
 
+        group_data = {}
+
         def check(where):
             g = ws.get_entity("DH")[0]
+            for dname, exp in group_data.items():
+                got = [c for c in g.children if c.name == dname]
+                if len(got) != 1 or got[0].values is None or not np.allclose(np.asarray(got[0].values, dtype=float), exp):
+                    return f"{where}: group-level data '{dname}' reads {[None if c.values is None else np.asarray(c.values).tolist() for c in got]} but {exp.tolist()} was written"
+            listed = sorted(c.name for c in g.children if type(c).__name__.endswith("Drillhole"))
+            if listed != sorted(model):
+                return f"{where}: the group lists the holes {listed} but the live holes are {sorted(model)}"
             for hname, datas in model.items():
                 hole = [c for c in g.children if c.name == hname]
                 if len(hole) != 1:
@@ -129,7 +138,9 @@ def run_history(case):
         for step, (op, h, name) in enumerate(case["ops"]):
             hname = f"H{h}"
             g = ws.get_entity("DH")[0]
-            hole = [c for c in g.children if c.name == hname][0]
+            if hname not in model and op != "reopen":
+                continue  # the hole was removed earlier in this history
+            hole = ([c for c in g.children if c.name == hname] or [None])[0]
             if op in ("add", "add_nan"):
                 if name in model[hname]:
                     continue
@@ -167,6 +178,41 @@ def run_history(case):
                 # the in-memory child list: recorded under C05 as a known finding)
                 hole.remove_children(hole.get_data(name)[0])
                 del model[hname][name]
+            elif op == "copy_group":
+                # a copy of the whole group inside the same workspace: from now on two groups own rows
+                if ws.get_entity("DH copy")[0] is None:
+                    g.copy(name="DH copy")
+            elif op == "group_data":
+                from geoh5py.data import Data
+
+                if "budget" not in group_data:
+                    ws.create_entity(Data, entity={"parent": g, "name": "budget", "association": "GROUP", "values": np.array([1.0, 2.0, 3.0]) + step}, entity_type={"primitive_type": "FLOAT"})
+                    group_data["budget"] = np.array([1.0, 2.0, 3.0]) + step
+            elif op == "idle_session":
+                # open, read every registry, close: the file must not change at all
+                del hole, g
+                ws.close()
+                from contracts.histories import file_digests as node_digests
+
+                before = node_digests(path)
+                with Workspace(path, mode="r+") as idle:
+                    _ = [e.name for e in idle.groups], [e.name for e in idle.objects], [e.name for e in idle.data], [t.name for t in idle.types]
+                    gc_ = __import__("gc")
+                    gc_.collect()
+                    _ = [e.name for e in idle.data], [t.name for t in idle.types]
+                after = node_digests(path)
+                changed = sorted(k for k in before if after.get(k) != before[k]) + sorted(set(after) - set(before))
+                ws = Workspace(path, mode="r+")
+                if changed:
+                    return f"after step {step}: opening, listing the registries and closing changed the file at {changed[:4]} ({case})"
+            elif op in ("remove_hole_ws", "remove_hole_parent"):
+                # no access to the hole's data first: after a re-open they are still unloaded
+                if op == "remove_hole_ws":
+                    ws.remove_entity(hole)
+                else:
+                    g.remove_children([hole])
+                del model[hname]
+                del hole
             elif op == "reopen":
                 ws.close()
                 bad = _file_tiling(path)
@@ -206,7 +252,7 @@ class ConcatHistories(Contract):
     symbolic = False
     has_native = True
     props = ("C04",)
-    bounded_scope = "2 holes x data names {Au, Cu}; operation sequences of length <= 4 (quick: 60 seeded + 16 fixed; thorough: 600) over add / add-with-NaN / add-text (each text longer than all earlier ones) / update / update-text / remove / re-open; both format versions; per-hole read-back after every step, raw file tiling after every close"
+    bounded_scope = "2 holes x data names {Au, Cu}; operation sequences of length <= 4 (quick: 60 seeded + 30 fixed; thorough: 600) over add / add-with-NaN / remove a whole hole (through the workspace or the group, also straight after a re-open) / copy the group inside the workspace / data stored on the group itself / an idle open-list-close session (file digests unchanged) / add-text (each text longer than all earlier ones) / update / update-text / remove / re-open; both format versions; per-hole read-back after every step, raw file tiling after every close"
 
     FIXED = [
         [("add", 0, "Au"), ("add", 1, "Au"), ("remove", 0, "Au"), ("reopen", 0, "")],
@@ -216,6 +262,13 @@ class ConcatHistories(Contract):
         [("add", 0, "Au"), ("add", 0, "Cu"), ("update", 0, "Au"), ("remove", 0, "Cu"), ("reopen", 0, "")],
         [("add", 0, "Au"), ("add", 1, "Au"), ("update", 0, "Au"), ("update", 1, "Au"), ("reopen", 0, ""), ("remove", 0, "Au"), ("reopen", 0, "")],
         [("add_text", 0, "Au"), ("add_text", 1, "Au"), ("reopen", 0, ""), ("update_text", 0, "Au"), ("reopen", 0, "")],
+        [("add", 0, "Au"), ("add", 0, "Cu"), ("add", 1, "Au"), ("reopen", 0, ""), ("remove_hole_ws", 0, ""), ("reopen", 0, "")],
+        [("add", 0, "Au"), ("add", 1, "Au"), ("add", 1, "Cu"), ("reopen", 0, ""), ("remove_hole_parent", 1, ""), ("reopen", 0, ""), ("update", 0, "Au")],
+        [("add", 0, "Au"), ("add", 1, "Au"), ("remove_hole_ws", 1, ""), ("add", 0, "Cu"), ("reopen", 0, "")],
+        [("add", 0, "Au"), ("add", 1, "Au"), ("copy_group", 0, ""), ("update", 0, "Au"), ("reopen", 0, ""), ("update", 1, "Au"), ("reopen", 0, "")],
+        [("add", 0, "Au"), ("reopen", 0, ""), ("add", 1, "Au"), ("copy_group", 0, ""), ("add", 0, "Cu"), ("reopen", 0, "")],
+        [("add", 0, "Au"), ("group_data", 0, ""), ("idle_session", 0, ""), ("reopen", 0, ""), ("idle_session", 0, ""), ("update", 0, "Au")],
+        [("group_data", 0, ""), ("add", 1, "Cu"), ("reopen", 0, ""), ("idle_session", 0, "")],
         [("add_text", 0, "Au"), ("add", 0, "Au"), ("add_text", 1, "Au"), ("update_text", 1, "Au"), ("add_text", 1, "Cu"), ("reopen", 0, "")],
     ]
 
